@@ -215,5 +215,5 @@ def cases(tier):
     return cs
 
 ASSUMPTIONS = ["register sets, bus widths, orderings, paging and bank addresses from a grid; all bus/device input valuations and all register states",
-               "_sort_gathered_items: bounded stand-in (exhaustive for <= 4 items), labelled bounded and not counted as proved",
+               "_sort_gathered_items: the bounded enumeration (<= 4 items) is kept as a cross-check beside the all-input proof in C12_sort_proof.py",
                "CSR names given explicitly (nameless CSRs cannot be elaborated on this interpreter without the harness shim)"]
